@@ -1403,7 +1403,11 @@ class PolyhedralTermList(TermList):  # noqa: WPS338
         for useful_term in useful_context:
             new_context = context.copy()
             new_context.terms.remove(useful_term)
-            new_term = useful_term.isolate_variable(var_to_elim)
+            # var_to_elim is bounded from above by the isolated expression when its coefficient in
+            # term is positive, and from below when it is negative: refine the expression in the
+            # matching direction
+            sign = 1 if term.get_coefficient(var_to_elim) > 0 else -1
+            new_term = useful_term.isolate_variable(var_to_elim).multiply(sign)
             new_no_vars = no_vars.copy()
             new_no_vars.append(var_to_elim)
             try:  # noqa: WPS229
@@ -1413,7 +1417,7 @@ class PolyhedralTermList(TermList):  # noqa: WPS338
                 total_calls += recursive_count
                 if return_term is None:
                     continue
-                return term.substitute_variable(var_to_elim, return_term), total_calls
+                return term.substitute_variable(var_to_elim, return_term.multiply(sign)), total_calls
             except ValueError:
                 total_calls += 1
 
